@@ -53,7 +53,33 @@ pub fn pt(x: &BigUint, y: &BigUint) -> Pt<Fp> {
     Some((fp(x), fp(y)))
 }
 
+/// [k]G: additions of cached [2^i]G (still the affine law; the cache only removes the doublings).
 pub fn g_mul(k: &BigUint) -> Pt<Fp> {
+    static POW: OnceLock<Vec<Pt<Fp>>> = OnceLock::new();
+    let pr = params();
+    let pow = POW.get_or_init(|| {
+        let mut v = Vec::with_capacity(256);
+        let mut q = pr.g.clone();
+        for _ in 0..256 {
+            v.push(q.clone());
+            q = pr.curve.dbl(&q);
+        }
+        v
+    });
+    if k.bits() > 256 {
+        return pr.curve.mul(k, &pr.g);
+    }
+    let mut r: Pt<Fp> = None;
+    for i in 0..k.bits() {
+        if k.bit(i) {
+            r = pr.curve.add(&r, &pow[i as usize]);
+        }
+    }
+    r
+}
+
+/// [k]G by plain double-and-add (used by the self-test to cross-check the cached variant)
+pub fn g_mul_plain(k: &BigUint) -> Pt<Fp> {
     let pr = params();
     pr.curve.mul(k, &pr.g)
 }
@@ -307,6 +333,9 @@ pub fn self_test() -> Result<(), String> {
     }
     if g_mul(&pr.n).is_some() {
         return Err("reference SM2: [n]G != O".into());
+    }
+    if g_mul_plain(&(&pr.n - BigUint::from(12345u32))) != g_mul(&(&pr.n - BigUint::from(12345u32))) {
+        return Err("reference SM2: cached g_mul != double-and-add".into());
     }
     let nm1 = &pr.n - BigUint::one();
     if g_mul(&nm1) != pr.curve.neg(&pr.g) {
